@@ -379,3 +379,15 @@ impl<T: Value, N: Unsigned, U: UpdateMap<T>> Decode for Vector<T, N, U> {
         })
     }
 }
+
+/// Read-only accessors for the verification harness (cargo feature `verif`).
+#[cfg(feature = "verif")]
+impl<T: Value, N: Unsigned, U: UpdateMap<T>> Vector<T, N, U> {
+    pub fn verif_tree(&self) -> &Arc<Tree<T>> {
+        &self.interface.backing.tree
+    }
+
+    pub fn verif_depth(&self) -> usize {
+        self.interface.backing.depth
+    }
+}
